@@ -966,6 +966,11 @@ func TestC05(t *testing.T) {
 			c05OpMatch(tr, os, lp)
 			continue
 		}
+		if rng.Chance(3) {
+			tr.Count("case:first-batch-with-pools")
+			g.firstPoolsCase(tr)
+			continue
+		}
 		if rng.Chance(12) {
 			os = g.oneSided(tr)
 			tr.Count("case:one-sided")
